@@ -76,6 +76,11 @@ func (f *frame) loopEnv(li *loopInfo, phiVals map[*ssa.Phi]Val, st *State) *TEnv
 			}
 		}
 	}
+	if li.entryPhis != nil && li.preState != nil {
+		if phiVals == nil || !samePhiMap(phiVals, li.entryPhis) || st != li.preState {
+			env.loopEntry = f.loopEnv(li, li.entryPhis, li.preState)
+		}
+	}
 	env.resolve = func(name string) (TV, bool) {
 		// nearest dominating DebugRef
 		for d := h; d != nil; d = d.Idom() {
@@ -118,8 +123,34 @@ func (f *frame) loopEnv(li *loopInfo, phiVals map[*ssa.Phi]Val, st *State) *TEnv
 	return env
 }
 
+func samePhiMap(a, b map[*ssa.Phi]Val) bool {
+	if len(a) != len(b) {
+		return false
+	}
+	for k, x := range a {
+		y, ok := b[k]
+		if !ok {
+			return false
+		}
+		xt, ok1 := x.(Term)
+		yt, ok2 := y.(Term)
+		if ok1 != ok2 || (ok1 && xt.S != yt.S) {
+			return false
+		}
+		if !ok1 {
+			xs, ok3 := x.(SliceV)
+			ys, ok4 := y.(SliceV)
+			if ok3 != ok4 || (ok3 && (xs.B.S != ys.B.S || xs.L.S != ys.L.S)) {
+				return false
+			}
+		}
+	}
+	return true
+}
+
 func (f *frame) enterLoop(b *ssa.BasicBlock, li *loopInfo, phiEntry map[*ssa.Phi]Val) {
 	v := f.v
+	li.entryPhis = phiEntry
 	if !f.isRoot {
 		unsupp("loop inside inlined function %s", f.fn)
 	}
@@ -307,16 +338,15 @@ func (f *frame) backEdge(from, h *ssa.BasicBlock) {
 					continue
 				}
 				goal := v.trClause(env, cl)
-				v.oblige("inv-keep", fmt.Sprintf("%s/inv-keep#%d.%d", v.fc.Key, li.ord, cl.Ord), cl.Tags, reach, goal, v.pos(firstPos(h)), cl.Src)
+				v.pend("inv-keep", fmt.Sprintf("%s/inv-keep#%d.%d", v.fc.Key, li.ord, cl.Ord), cl.Tags, reach, goal, v.pos(firstPos(h)), cl.Src)
 			case "decreases":
 				now := env.term(cl.E)
 				goal := T(SBool, "(and (>= %s 0) (< %s %s))", li.decAt.S, now.S, li.decAt.S)
-				v.oblige("dec", fmt.Sprintf("%s/dec#%d", v.fc.Key, li.ord), []string{"C20"}, reach, goal, v.pos(firstPos(h)), cl.Src)
+				v.pend("dec", fmt.Sprintf("%s/dec#%d", v.fc.Key, li.ord), []string{"C20"}, reach, goal, v.pos(firstPos(h)), cl.Src)
 			}
 		}
 	}
 	// re-establish the auto frame invariant
-	var goals []Term
 	for _, name := range li.modArrs {
 		s, ok := v.arrSort[name]
 		if !ok || strings.HasPrefix(name, "G:") || strings.HasPrefix(name, "It:") {
@@ -326,10 +356,9 @@ func (f *frame) backEdge(from, h *ssa.BasicBlock) {
 		if !ok {
 			continue
 		}
-		goals = append(goals, v.loopFrame(name, s, li, cur))
-	}
-	if g := And(goals...); g.S != "true" {
-		v.oblige("inv-keep", fmt.Sprintf("%s/inv-keep#%d.frame", v.fc.Key, li.ord), nil, reach, g, v.pos(firstPos(h)), "objects outside the modifies clause are unchanged")
+		if g := v.loopFrame(name, s, li, cur); g.S != "true" {
+			v.pend("inv-keep", fmt.Sprintf("%s/inv-keep#%d.frame:%s", v.fc.Key, li.ord, name), nil, reach, g, v.pos(firstPos(h)), "objects that existed before the loop and are outside its modifies clause keep their "+name)
+		}
 	}
 	if _, isRange := rangeIndexPhi(h); li.spec == nil || (!li.hasDec && isRange == nil && rangeIter(h) == nil) {
 		if p, _ := rangeIndexPhi(h); p == nil && rangeIter(h) == nil {
